@@ -8,6 +8,7 @@ from flow import Search, GateMonitor, BeforeMonitor, AfterMonitor, Viol, dominat
 from pat import M, parse, find
 
 VERIF = os.path.dirname(os.path.dirname(os.path.dirname(os.path.abspath(__file__))))
+OUT = os.environ.get("VERIF_OUT", VERIF)   # mutant/self-test runs write their evidence elsewhere
 
 
 class Ctx:
@@ -63,20 +64,31 @@ class Ctx:
         if not accept_pts:
             self.bad(rule, "%s:no-accept-point" % fn.name, "no %s point found in %s" % (accept_desc, fn.name))
             return
-        kill = set()
-        if kill_names:
-            fn.defs(0)
-            for vid, nm in fn._names.items():
-                if nm in kill_names:
-                    kill.add(vid)
+        import re as _re
+        fn.defs(0)
+        by_name = {}
+        for vid, nm in fn._names.items():
+            by_name.setdefault(nm, set()).add(vid)
+
+        def kills_for(pattern):
+            # operands of the predicate: every local/parameter named in the pattern; a redefinition
+            # of one of them after the test invalidates the established outcome
+            pats = [p for p, w in pattern] if isinstance(pattern, list) else [pattern]
+            ids = set()
+            for p in pats:
+                for tok in _re.findall(r"[A-Za-z_][A-Za-z_0-9]*", p if isinstance(p, str) else ""):
+                    ids |= by_name.get(tok, set())
+            for nm in kill_names:
+                ids |= by_name.get(nm, set())
+            return ids
         for spec in preds:
             if len(spec) == 2:
                 label, pattern = spec
                 want = "one of " + "; ".join("%s=%s" % (p, w) for p, w in pattern)
-                mon = GateMonitor(accept_pts, pattern, None, kill)
+                mon = GateMonitor(accept_pts, pattern, None, kills_for(pattern))
             else:
                 label, pattern, want = spec
-                mon = GateMonitor(accept_pts, pattern, want, kill)
+                mon = GateMonitor(accept_pts, pattern, want, kills_for(pattern))
             mon.label = label
             s = Search(fn, mon)
             v = s.run(False)
@@ -133,7 +145,7 @@ class Ctx:
                 self.known_hit.append(v["key"])
             else:
                 new_viol.append(v)
-        rep_dir = os.path.join(VERIF, "reports", self.prop)
+        rep_dir = os.path.join(OUT, "reports", self.prop)
         os.makedirs(rep_dir, exist_ok=True)
         for f in os.listdir(rep_dir):
             os.unlink(os.path.join(rep_dir, f))
@@ -179,8 +191,8 @@ class Ctx:
             "wall_s": round(time.time() - self.t0, 3),
             "violations": len(new_viol),
         }
-        os.makedirs(os.path.join(VERIF, "evidence"), exist_ok=True)
-        with open(os.path.join(VERIF, "evidence", self.prop + ".json"), "w") as f:
+        os.makedirs(os.path.join(OUT, "evidence"), exist_ok=True)
+        with open(os.path.join(OUT, "evidence", self.prop + ".json"), "w") as f:
             json.dump(ev, f, indent=1)
         for l in known_lines:
             print(l)
